@@ -97,6 +97,12 @@ def log(*items):
     _LOG.append(items)
 
 
+def join_all(threads):
+    """wait for all threads (one scheduling point in the VM instead of one per thread)"""
+    for t in threads:
+        t.join()
+
+
 def is_symbolic():
     return False
 
@@ -223,3 +229,13 @@ def install(vm):
     vm.register_model(reach, m_reach)
     vm.register_model(log, m_log)
     vm.register_model(is_symbolic, m_is_symbolic)
+
+    def m_join_all(vm, s, args, kw):
+        from . import containers as C
+        ths = [v for _, v in C.iter_items(vm, s, args[0])]
+        if vm.sched is not None:
+            return vm.sched.join_all(vm, s, ths)
+        for th in ths:
+            th.set("_vt_finished", True, s.guard)
+        return None
+    vm.register_model(join_all, m_join_all)
